@@ -23,7 +23,7 @@ def gen(seed, tier):
         pid = "p%d" % i
         steps = rng.choice([[["block"]], [["hb", 0.5, None]], [["sleep", 0.3], ["return", "none"]], [["return", "none"]]])
         spec = {"id": pid, "flavour": fl, "steps": steps}
-        via = rng.choice(["queued", "queued", "adopt-driver", "adopt-driver", "adopt-payload", "service-pre", "service-late-driver", "service-late-payload"])
+        via = rng.choice(["queued", "queued", "adopt-driver", "adopt-driver", "adopt-payload", "adopt-private-loop", "service-pre", "service-late-driver", "service-late-payload"])
         if via.startswith("service"):
             spec["drop_immediately"] = rng.random() < 0.2
         else:
@@ -40,6 +40,10 @@ def gen(seed, tier):
             if d:
                 scr.append(["sleep", d])
             scr.append(["adopt" if via == "adopt-driver" else "create-service", pid])
+        elif via == "adopt-private-loop":
+            # a thread payload running an asyncio loop of its own submits from inside that loop
+            spec["via"] = "adopt"
+            payloads.append({"id": "par%d" % i, "flavour": "threading", "via": "queued", "steps": [["sleep", rng.choice([0.0, 0.0, ad])], ["private-loop", [["adopt", pid], ["sleep", rng.choice([0.0, 0.3])]]], ["block"]], "helper": True})
         else:
             spec["via"] = "adopt" if via == "adopt-payload" else "service"
             op = "adopt" if via == "adopt-payload" else "create-service"
